@@ -8,6 +8,7 @@ package main
 // with the field cache switched off; results are compared by content (`contentValue`).
 
 import (
+	"sort"
 	"encoding/json"
 	"fmt"
 	"math"
@@ -608,6 +609,45 @@ func c10One(e *Env, col *Collector, idx uint64) {
 	} else {
 		for i := range chunk {
 			judge("batch", i, "ok", bv[i])
+		}
+	}
+	// the whole statement through the planner (constant sub-expressions are computed when the plan is built):
+	// the same column, pair by pair, in both modes — only when the chunk's keys are distinct (it becomes the store)
+	if c.noPanic || c.refuse {
+		return
+	}
+	seen := map[string]int{}
+	var kvs []KV
+	for i, kv := range chunk {
+		if _, dup := seen[string(kv.Key)]; dup {
+			return
+		}
+		seen[string(kv.Key)] = i
+		kvs = append(kvs, KV{string(kv.Key), string(kv.Value)})
+	}
+	order := make([]int, len(chunk))
+	for i := range order {
+		order[i] = i
+	}
+	sort.Slice(order, func(a, b int) bool { return string(chunk[order[a]].Key) < string(chunk[order[b]].Key) })
+	for _, batch := range []bool{false, true} {
+		mode := map[bool]string{false: "plan-row", true: "plan-batch"}[batch]
+		res := runStatement(q, NewRefStore(kvs), batch, true)
+		if res.Panic != "" {
+			judge(mode, order[0], "panic", nil)
+			continue
+		}
+		if res.Err != nil {
+			// an evaluation failure on some pair ends the statement: judged by the direct evaluation above
+			continue
+		}
+		if len(res.Rows) != len(chunk) {
+			continue
+		}
+		for j, row := range res.Rows {
+			if len(row) > 0 {
+				judge(mode, order[j], "ok", row[len(row)-1])
+			}
 		}
 	}
 }
